@@ -12,6 +12,37 @@ NCPU = min(16, os.cpu_count() or 4)
 EXIT_HELD, EXIT_VIOLATION, EXIT_INCONCLUSIVE = 0, 1, 2
 
 
+def _part():
+    v = os.environ.get("VERIF_PART", "")
+    try:
+        i, n = v.split("/")
+        return int(i), max(1, int(n))
+    except Exception:
+        return 0, 1
+
+
+# A thorough run is split into PART_N independent parts run as parallel processes (check.py spawns them and merges their
+# partial results): generation and judging are single-threaded python, so this is what makes depth affordable.
+PART_I, PART_N = _part()
+
+
+def share(total):
+    """this part's share of a sampled workload of `total` cases"""
+    return max(1, -(-int(total) // PART_N))
+
+
+def mine(seq):
+    """this part's share of an enumerated workload (the parts together cover it completely)"""
+    seq = list(seq)
+    return seq[PART_I::PART_N] if PART_N > 1 else seq
+
+
+def part_file(pid, tier, i):
+    d = os.path.join(CACHE, "parts")
+    os.makedirs(d, exist_ok=True)
+    return os.path.join(d, "%s-%s-%d.json" % (pid, tier, i))
+
+
 class Inconclusive(Exception):
     pass
 
@@ -174,7 +205,7 @@ def run_driver(sub, items, profile="dev", shards=None, timeout=300, tag="run", e
     n = len(items)
     if n == 0:
         return []
-    shards = shards or NCPU
+    shards = shards or max(2, NCPU // PART_N)
     shards = max(1, min(shards, n))
     enc = [json.dumps(x) for x in items]
     idx = [list(range(s, n, shards)) for s in range(shards)]
@@ -242,7 +273,7 @@ class Ctx:
     def __init__(self, pid, tier, seed, level="exploration"):
         self.pid, self.tier, self.seed, self.level = pid, tier, seed, level
         self.t0 = time.time()
-        self.rng = random.Random(seed * 1000003 + int(pid[1:]))
+        self.rng = random.Random(seed * 1000003 + int(pid[1:]) + 7919 * PART_I)
         self.findings = load_findings(pid)
         self.violations = []      # (desc, replay)
         self.known_hits = {}      # finding id -> count
@@ -288,7 +319,38 @@ class Ctx:
             self.count("violations_beyond_cap")
         return True
 
+    def partial(self, min_evals, min_nontrivial):
+        return {"evaluations": self.evaluations, "nontrivial": sorted(self.nontrivial), "samples": self.samples[:3], "observed": self.observed,
+                "inconclusive_cases": self.inconclusive_cases, "known_hits": self.known_hits, "legs": self.legs, "exhaustive": self.exhaustive,
+                "violations": [[d, r] for d, r in self.violations], "rule": self.rule, "assumptions": self.assumptions,
+                "min_evals": min_evals, "min_nontrivial": min_nontrivial, "wall": time.time() - self.t0}
+
+    def merge(self, part):
+        self.evaluations += part["evaluations"]
+        self.nontrivial.update(part["nontrivial"])
+        self.samples += part["samples"]
+        self.observed = merge_observed(self.observed, part["observed"])
+        self.inconclusive_cases += part["inconclusive_cases"]
+        for k, v in part["known_hits"].items():
+            self.known_hits[k] = self.known_hits.get(k, 0) + v
+        for l in part["legs"]:
+            if l not in self.legs:
+                self.legs.append(l)
+        self.rule = self.rule or part["rule"]
+        self.assumptions = self.assumptions or part["assumptions"]
+        for d, r in part["violations"]:
+            n = d.pop("occurrences", 1)
+            if self.violation(d, r):
+                key = json.dumps([d.get(k) for k in ("kind", "site", "msg", "what", "dedupe")], default=str)
+                if key in self._vkeys:
+                    self._vkeys[key]["occurrences"] += n - 1
+
     def finish(self, min_evals=1, min_nontrivial=2):
+        if PART_N > 1:
+            with open(part_file(self.pid, self.tier, PART_I), "w") as f:
+                json.dump(self.partial(min_evals, min_nontrivial), f, default=str)
+            print("[%s %s part %d/%d] evaluations=%d violations=%d wall=%.1fs" % (self.pid, self.tier, PART_I, PART_N, self.evaluations, len(self.violations), time.time() - self.t0))
+            return EXIT_HELD
         wall = time.time() - self.t0
         ensure_dirs()
         status = "held"
@@ -339,6 +401,22 @@ class Ctx:
                   % (self.pid, self.evaluations, len(self.nontrivial)))
             return EXIT_INCONCLUSIVE
         return EXIT_HELD
+
+
+def merge_observed(a, b):
+    out = dict(a)
+    for k, v in b.items():
+        if k not in out:
+            out[k] = v
+        elif isinstance(v, bool) or isinstance(out[k], bool):
+            out[k] = out[k] and v
+        elif isinstance(v, (int, float)) and isinstance(out[k], (int, float)):
+            out[k] = out[k] + v
+        elif isinstance(v, dict) and isinstance(out[k], dict):
+            out[k] = merge_observed(out[k], v)
+        elif isinstance(v, list) and isinstance(out[k], list):
+            out[k] = (out[k] + [x for x in v if x not in out[k]])[:40]
+    return out
 
 
 def write_inconclusive(pid, tier, seed, level, why):
